@@ -49,3 +49,8 @@ for n1, n2 in [(1, 0), (0, 1), (1, 1)]:
     OBS.append(Ob(['C18'], 'arr_eq_null_%d%d' % (n1, n2), 'doc', 'harness/doc_hist.c', 'h_arr_eq_null', defs=['N1NULL=%d' % n1, 'N2NULL=%d' % n2], unwind=8, desc='[x%s] == [z%s] in both operand orders: lengths count, a trailing null is an element' % (',null' if n1 else '', ',null' if n2 else ''), bound='all int32 x, z', **H))
 for ub, nm in [(0, 'JsonArrayConst'), (1, 'JsonObjectConst'), (2, 'JsonVariantConst')]:
     OBS.append(Ob(['C04'], 'set_unbound_%d' % ub, 'doc', 'harness/doc_hist.c', 'h_set_unbound', defs=['UNB=%d' % ub], unwind=8, desc='adding an unbound %s to an array adds null (not [] / {})' % nm, bound='all int32 values', **H))
+for rn in (1, 3):
+    OBS.append(Ob(['C02'], 'ser_raw_n%d' % rn, 'doc', 'harness/doc_ser.c', 'h_ser_raw', defs=['RAWN=%d' % rn], unwind=10, desc='a raw value of %d bytes is emitted verbatim (NUL and every other byte value), count == measure, bounded buffer gets the prefix' % rn, bound='all byte values x capacity 0..n+2', **dict(H, hunwind=20)))
+OBS.append(Ob(['C02'], 'ser_custom_writer', 'doc', 'harness/doc_ser.c', 'h_ser_custom', unwind=10, desc='serializeJson([i,"s0s1"]) into a custom writer that accepts only `room` bytes: returned count == bytes accepted == min(room,length)', bound='i in -128..127, all string bytes, room 0..length+2', **dict(H, hunwind=44)))
+for how, nm in [(0, 'swap'), (1, 'move')]:
+    OBS.append(Ob(['C05'], 'swap_overflow_' + nm, 'doc', 'harness/doc_hist.c', 'h_swap_overflow', defs=['SWAPHOW=%d' % how], unwind=8, desc='overflowed() follows the content through %s' % nm, bound='all 64-bit values needing an extension slot, all int32', **H))
